@@ -85,9 +85,9 @@ theorem bodyComps_parent (parts : List (List Char)) :
           · exact Or.inr h
 
 /-- a relative request path that `safe_join` accepts has no `..` part -/
-theorem accepted_no_dotdot (root rel q : List Char) (h : safeJoin root rel = some q) :
+theorem accepted_no_dotdot (root rel q : List Char) (h : safeJoinPath root rel = some q) :
     q = root ++ '/' :: rel ∧ rel.head? ≠ some '/' ∧ dotdot ∉ splitSlash rel := by
-  unfold safeJoin at h
+  unfold safeJoinPath at h
   split at h
   · cases h
   · next hh =>
